@@ -105,6 +105,12 @@ func C16Read(r *eng.Run) {
 	zeroReads, netErr := r.T.Chance(sim.LFault, 1, 8), r.T.Chance(sim.LFault, 1, 3)
 	resume := r.T.Chance(sim.LFault, 1, 4) // error cuts fire once, then the stream goes on
 	cfg.ZeroBuf = (cfg.App == AppReader || cfg.App == AppNextReader) && r.T.Chance(sim.LFault, 1, 8)
+	if cfg.App == AppReader && r.T.Chance(sim.LCfg, 1, 4) {
+		// The stream is valid up to the cut: a Reader told to skip the
+		// header checks has to report the cut all the same.
+		cfg.SkipCheck = true
+		r.Probe("cut_with_header_check_skipped")
+	}
 	model := Model(s, cfg)
 	r.Note("C16 read %s side=%d seg=%d endWithData=%v stream(%d bytes): %s", cfg.Name(), cfg.Side, seg, withData, len(s.Wire), s.Describe())
 
